@@ -8,6 +8,10 @@ Definition task_eqb (a b : task) : bool :=
   | TClientAuth m, TClientAuth n => m =? n
   | TChangePw, TChangePw => true
   | TServerPw u1 p1, TServerPw u2 p2 => (u1 =? u2) && (p1 =? p2)
+  | TClientKbdResp, TClientKbdResp => true
+  | TServerKbd u1, TServerKbd u2 => u1 =? u2
+  | TServerKbdResp u1 p1, TServerKbdResp u2 p2 => (u1 =? u2) && (p1 =? p2)
+  | TServerPk, TServerPk => true
   | _, _ => false
   end.
 
